@@ -46,7 +46,8 @@ def floors(tier):
                          "returned_covariances_classified": n * STEPS[tier] // 3,
                          "histories_singular_family": n // 6,
                          "histories_completed": n // 3,
-                         "cpp_returned_covariances_classified": N_CPP[tier] * 20}}
+                         "cpp_returned_covariances_classified": N_CPP[tier] * 20,
+                         "cpp_histories_with_several_controls": N_CPP[tier] // 3}}
 
 
 def setup_worker(ctx):
@@ -104,6 +105,11 @@ def run_cpp(unit, ctx):
     R = K.Result()
     rng = K.unit_rng(ID, ctx["seed"], unit)
     defn = gen_defn(rng, unit["i"])
+    if unit["i"] % 2 == 1:
+        # several controls: the whole process-noise matrix (not only a 1x1 block) takes part
+        defn = gen.contractive_program(rng, n_state=(2, 4), n_control=(2, 3), n_calib=(0, 1), n_sensor=(1, 2),
+                                       n_reading=(1, 3), depth=1, n_shared=(0, 1), allow_text=False)
+        R.stats.inc("cpp_histories_with_several_controls")
     fam = defn.get("family", "?")
     b = build.Built(defn)
     md = rng.choice([0.05, 0.1, 0.5])
